@@ -1117,11 +1117,15 @@ func execCase[T any, TP ez.ConfigWithConfigPath[T]](c C18Case, td *typeDef, bubb
 			if v := checkVerifyLog(legit, what); v != nil {
 				return *v
 			}
+			now := d.View() // (read before the log: Verify records before the monitor stores)
 			seen := false
 			for _, e := range recd.snapshot()[nBefore:] {
 				seen = seen || eq(e.(*T), fullR)
 			}
-			if seen && eq(d.View(), want) {
+			if !seen && eq(now, fullR) && !eq(fullR, cur) {
+				return vrt.KeyedViolationf("verify-skipped-on-rewrite", "%s: the view already shows the new stack %+v but Verify never ran on it (verification was enabled before the entry point returned)", what, *now).With(nonTrivial, labels...)
+			}
+			if seen && eq(now, want) {
 				converged = true
 				break
 			}
@@ -1137,6 +1141,9 @@ func execCase[T any, TP ez.ConfigWithConfigPath[T]](c C18Case, td *typeDef, bubb
 		if !converged {
 			got := d.View()
 			if allParked3() {
+				if eq(got, want) {
+					return vrt.KeyedViolationf("verify-skipped-on-rewrite", "%s: 10 s after the file was atomically replaced every library goroutine is parked (3 dumps 300 ms apart), the view is as expected (%+v) but Verify never ran on the new stack %+v", what, *got, *fullR).With(nonTrivial, labels...)
+				}
 				return vrt.KeyedViolationf("lost-update", "%s: 10 s after the file was atomically replaced, every library goroutine is parked (3 dumps 300 ms apart) and the view is %+v, want %+v; Verify calls since the rewrite: %d\nfile:\n%s", what, *got, *want, len(recd.snapshot())-nBefore, content).With(nonTrivial, labels...)
 			}
 			return vrt.Discardf("inconclusive: %s not converged after 10 s while library goroutines are still runnable", what)
